@@ -242,6 +242,7 @@ def c05(ck):
     alph = ["brackets", "strings", "macros", "escapes", "numbers", "preamble"]
     cases = text_cases(ck, alph, 4 if ck.quick else 5)
     cases += text_cases(ck, ["chain"], 4 if ck.quick else 8)
+    cases += text_cases(ck, ["escseeds"], 3)
     ck.replay(cases, args=["-prop", "C05"])
     ck.exhaustive = True
     ck.extra["alphabets"] = alph
